@@ -35,6 +35,11 @@ def gen(tier, rng):
         m, known = D.family_doc("introspection", rng, ext)
         body = D.render(D.obj(D.shuffled(m + D.unknown_members(rng, known), rng)), rng)
         out.append((c05.http_line("async" if i % 2 else "sync", "introspect", ext, 200, rng.choice([None, b"application/json"]), body), "valid-model-http"))
+    # large, valid documents through a 200 reply (around and beyond 64 KiB): accepted like small ones
+    for size in (65000, 65537, 70000):
+        m_, known_ = D.family_doc("introspection", rng, False)
+        for pad in (("padding", "x" * size), ("padding", ["y"] * (size // 4))):
+            out.append((c05.http_line("sync" if size % 2 else "async", "introspect", False, 200, b"application/json", D.render(D.obj(m_ + [pad]), rng, plain=True)), "large-http"))
     return out
 
 
